@@ -254,6 +254,7 @@ struct Rw<'a> {
     fold_loops: bool,
     for_range: bool,
     for_iter: bool,
+    arr_own: bool,
     iter_model: Vec<String>,
     subst: Vec<(String, String)>,
     sections: &'a BTreeMap<String, String>,
@@ -614,7 +615,9 @@ impl<'a, 'b, 'ast> Visit<'ast> for Collector<'a, 'b> {
                     let names: Vec<String> = ps.elems.iter().map(|p| self.rw.src[p.span().byte_range()].to_string()).collect();
                     let rhs = self.rw.render_expr(&init.expr);
                     let idx: Vec<String> = (0..names.len()).map(|k| format!("__arr[{k}]")).collect();
-                    let text = format!("let __arr = {}; let ({}) = ({});", rhs, names.join(", "), idx.join(", "));
+                    // option arr_own=1: the elements are moved out (non-Copy) -> `let (a, b, c) = arr3_(e);` (overlay helper: the array as a tuple)
+                    let text = if self.rw.arr_own { format!("let ({}) = arr{}_({});", names.join(", "), names.len(), rhs) }
+                        else { format!("let __arr = {}; let ({}) = ({});", rhs, names.join(", "), idx.join(", ")) };
                     self.rw.count("R12");
                     let r = s.span().byte_range();
                     self.edits.push((r.start, r.end, text));
@@ -644,13 +647,13 @@ impl<'a, 'b, 'ast> Visit<'ast> for Collector<'a, 'b> {
                         keys.push(name.clone());
                     }
                     for key in keys {
-                        if let Some(t) = self.rw.section(&format!("after-let {key}")) {
-                            let at = s.span().byte_range().end;
-                            self.edits.push((at, at, format!("\nproof {{ //@p\n{}\n}} //@p\n", mark(t))));
-                        }
                         if let Some(t) = self.rw.section(&format!("after-let-raw {key}")) {
                             let at = s.span().byte_range().end;
                             self.edits.push((at, at, format!("\n{}\n", mark(t))));
+                        }
+                        if let Some(t) = self.rw.section(&format!("after-let {key}")) {
+                            let at = s.span().byte_range().end;
+                            self.edits.push((at, at, format!("\nproof {{ //@p\n{}\n}} //@p\n", mark(t))));
                         }
                         if let Some(t) = self.rw.section(&format!("before-let {key}")) {
                             let at = s.span().byte_range().start;
@@ -843,6 +846,17 @@ impl<'a, 'b, 'ast> Visit<'ast> for Collector<'a, 'b> {
                 rw.count("R22");
                 let sp = e.span().byte_range();
                 self.edits.push((sp.start, sp.end, text));
+            }
+            Expr::MethodCall(c) if rw.for_iter && c.method == "map" && c.args.len() == 1 && matches!(&c.args[0], Expr::Closure(_)) && { let mut r = &*c.receiver; while let Expr::Paren(p) = r { r = &p.expr; } matches!(r, Expr::Range(rg) if rg.start.is_some() && rg.end.is_some() && matches!(rg.limits, syn::RangeLimits::HalfOpen(_))) } => {
+                // R27 (option for_iter=1): `(lo..hi).map(f)` passed on as an iterator -> `range_map_(lo, hi, f)`: the overlay's model of
+                //   the lazy sequence f(lo), .., f(hi-1); the closure itself still needs its contract section (R11)
+                let mut r = &*c.receiver; while let Expr::Paren(p) = r { r = &p.expr; }
+                if let Expr::Range(rg) = r {
+                    let text = format!("range_map_({}, {}, {})", rw.render_expr(rg.start.as_ref().unwrap()), rw.render_expr(rg.end.as_ref().unwrap()), rw.render_expr(&c.args[0]));
+                    rw.count("R27");
+                    let sp = e.span().byte_range();
+                    self.edits.push((sp.start, sp.end, text));
+                }
             }
             Expr::MethodCall(c) if rw.for_iter && c.method == "then" && c.args.len() == 1 && matches!(&c.args[0], Expr::Closure(cl) if cl.inputs.is_empty()) => {
                 // R26 (option for_iter=1): `b.then(|| E)` -> `if b { Some(E) } else { None }`  (bool::then, by definition)
@@ -1049,6 +1063,15 @@ impl<'a, 'b, 'ast> Visit<'ast> for Collector<'a, 'b> {
                         // optional "closure N params": a single pattern parameter `|(c, a)|` becomes
                         // `|__p: T|` with `let (c, a) = __p;` at the start of the body (how rustc binds it)
                         let mut bind = String::new();
+                        if let Some(pt) = rw.section(&format!("closure {idx} typed")) {
+                            // "closure N typed": the parameter list with the types rustc infers written out (`|n, k|` -> `|n: usize, k: usize|`)
+                            if let (Some(first), Some(last)) = (c.inputs.first(), c.inputs.last()) {
+                                let names: Vec<String> = c.inputs.iter().map(|p| rw.src[p.span().byte_range()].trim().to_string()).collect();
+                                let given: Vec<String> = pt.split(',').map(|x| x.split(':').next().unwrap_or("").trim().to_string()).collect();
+                                if names != given { rw.err("anchor-lost", format!("closure {idx}: parameter names changed ({:?} vs {:?})", names, given)); }
+                                self.edits.push((first.span().byte_range().start, last.span().byte_range().end, pt.trim().to_string()));
+                            }
+                        }
                         if let Some(pt) = rw.section(&format!("closure {idx} params")) {
                             if c.inputs.len() == 1 {
                                 let pat = &c.inputs[0];
@@ -1057,7 +1080,9 @@ impl<'a, 'b, 'ast> Visit<'ast> for Collector<'a, 'b> {
                                 self.edits.push((pr.start, pr.end, pt.trim().to_string()));
                             }
                         }
-                        self.edits.push((sp.start, sp.end, format!("{} {{ {}{} }}", t.trim_end(), bind, body)));
+                        // optional "closure N pre": proof steps at the start of the closure body
+                        let pre = rw.section(&format!("closure {idx} pre")).map(|t| format!("proof {{ //@p\n{}\n}} //@p\n", mark(t))).unwrap_or_default();
+                        self.edits.push((sp.start, sp.end, format!("{} {{ {}{}{} }}", t.trim_end(), bind, pre, body)));
                         rw.count("R11");
                     }
                     Some(t) => {
@@ -1127,6 +1152,7 @@ fn extract_body(repo: &Path, source: &str, d: &Directive, variant: &str) -> Resu
         fold_loops: d.opts.get("fold_loops").map(|v| v == "1").unwrap_or(false),
         for_range: d.opts.get("for_range").map(|v| v == "1").unwrap_or(false),
         for_iter: d.opts.get("for_iter").map(|v| v == "1").unwrap_or(false),
+        arr_own: d.opts.get("arr_own").map(|v| v == "1").unwrap_or(false),
         iter_model: d.opts.get("iter_model").map(|s| s.split(',').map(|x| x.to_string()).collect()).unwrap_or_default(),
         subst,
         sections: &d.sections,
